@@ -26,10 +26,10 @@
 using namespace mc;
 const char *mc_id = "C08";
 const char *mc_rule = "choice DFS: all byte strings of length <= L (quick 4, thorough 5) over the per-format token alphabet {section start/end, option start, assign, option end, comment, "
-                      "quote, backslash, newline, blank, 'a', '1', '-', NUL, 0xE9 (thorough: + second quote, '.')} x 11 format strings (pre/enc/sep/options-only families) x name-flag sets, "
+                      "quote, backslash, newline, blank, 'a', '1', '-', NUL, 0xE9 (thorough: + second quote, '.')} x 15 format strings (pre/enc/sep/options-only families, each with and without an option-start character) x name-flag sets, "
                       "plus one long token (254..257, 65534..65537 bytes) in every position, a 1..330 byte run followed by every string of length <= 2 (buffer fill sweep), all <=2 token mutations "
                       "(delete/duplicate/truncate/replace) of a seed document per format and all strings <= 3 ending in a read error; "
-                      "each input goes through mpt_parse_config (recording handler, also with a failing handler), the element loop of examples/core/parse.c and mpt_parse_node (empty + two populated targets); "
+                      "each input goes through mpt_parse_config (recording handler, also with a failing handler), the element loop of examples/core/parse.c and mpt_parse_node (empty + two populated targets that share names with the input); "
                       "nontrivial = distinct (input,format,flags) cases where mpt_parse_node fails after elements had already been stored in its temporary tree while the target is populated";
 
 // ------------------------------------------------------------------ formats, flags
@@ -46,7 +46,13 @@ static const FmtDef FMT[] = {
 	{ "optnoas",  "{_}   #",     "opt" },   // "name value" lines
 	{ "sepfull",  "[ ]:=;#",     "sep" },   // option start ':' and option end ';'
 	{ "encfull",  "[x]:=;#",     "enc" },
+	{ "preost",   "{*}:= ",      "pre" },   // option start character for every section style
+	{ "encost",   "<x>:= ",      "enc" },
+	{ "sameost",  "%x%:= ",      "enc" },
+	{ "optost",   "{_}:= ",      "opt" },
 };
+// the element parsers of these formats answer "end of input inside a section" with MissingData: a successful parse has closed every section
+static bool must_close(int fi) { mpt::parser_format f; mpt::mpt_parse_format(&f, FMT[fi].str); std::string fam = FMT[fi].family; return fam == "pre" || (fam == "enc" && f.sstart != f.send); }
 static const int NFMT = sizeof FMT / sizeof *FMT;
 struct FlagDef { const char *id; const char *str; };
 static const FlagDef FLG[] = { { "all", 0 }, { "strict", "" }, { "Esnw", "Esnw" }, { "Ef", "Ef" }, { "E", "E" }, { "Esc", "Esc" } };
@@ -192,8 +198,7 @@ static void walk(const mpt::node *parent, const mpt::node *first, Snap &s, int d
 	for (const mpt::node *n = first; n; prev = n, n = n->next) {
 		if (depth > 12 || s.nodes.size() > 256) { s.ok = false; s.why = "walk does not end (cycle)"; return; }
 		if (!ledger_is_live(n)) { s.ok = false; s.why = "link to a node that is not allocated (any more)"; return; }
-		// (the parent link of top-level nodes after a parse into an empty root is C14's finding, not judged here)
-		if ((depth && n->parent != parent) || n->prev != prev) { s.ok = false; s.why = "parent/sibling links of a node are inconsistent"; return; }
+		if (n->parent != parent || n->prev != prev) { s.ok = false; s.why = "parent/sibling links of a node are inconsistent"; return; }
 		s.nodes.push_back(n);
 		s.canon.push_back((char) ('0' + depth));
 		const void *id = n->ident._len ? mpt::mpt_identifier_data(&n->ident) : 0;
@@ -216,7 +221,8 @@ static std::string pretty(const std::string &c)
 	return o;
 }
 
-static const char *SHAPE_TXT[] = { "", "x {\n y {\n z = 1\n }\n w = 2\n}\nv = 3\n", "x = 1\ny = 2\n" };
+// the populated targets use the names the parsed documents use (a, b, -, 1): a successful parse merges into them
+static const char *SHAPE_TXT[] = { "", "a {\n a {\n b = 1\n }\n b = 2\n}\nb = 3\n- = 4\n", "a = 1\nb = 2\n" };
 static const char *SHAPE_ID[] = { "empty-root", "nested-root", "flat-root" };
 
 struct Case {
@@ -287,7 +293,10 @@ static int run_config(Run &r, const Case &c, int fail_at, int *result)
 	if (ret == 0) {
 		++g_cn[CFG_OK]; ++g_ok_by_fmt[c.fi];
 		if (rec.maxdepth >= 2) ++g_cn[CFG_DEPTH2];
-		if (!rec.lens.empty()) ++g_cn[CFG_OPEN_END];
+		if (!rec.lens.empty()) {
+			if (must_close(c.fi)) { r.violation(c.sig("parse_config", "nesting:open-at-end"), d() + fmt("; success is reported although %zu section(s) are still open at end of input (this format answers end of input inside a section with MissingData)", rec.lens.size())); return -1; }
+			++g_cn[CFG_OPEN_END];
+		}
 		if (rec.nev) ++g_cn[CFG_OK_EV];
 	} else {
 		++g_cn[CFG_FAIL];
@@ -316,7 +325,6 @@ static int run_node(Run &r, const Case &c, int shape, int cfg_result, int *resul
 		Src s0((const uint8_t *) SHAPE_TXT[shape], strlen(SHAPE_TXT[shape]), -2);
 		mpt::parser_context c0; c0.src.getc = src_getc; c0.src.arg = &s0; c0.src.line = 1;
 		if (LIB(mpt::mpt_parse_node(root, &c0, 0)) < 0 || !root->children) { r.violation("HARNESS|shape-setup", c.desc()); return -1; }
-		for (mpt::node *n = root->children; n; n = n->next) n->parent = root;     // (C14: a parse into an empty root leaves the parent link unset)
 	}
 	Snap before; snapshot(root, before);
 	if (!before.ok) { r.violation("HARNESS|shape-setup", c.desc() + ": " + before.why); return -1; }
@@ -432,6 +440,7 @@ static int run_example(Run &r, const Case &c, int cfg_result)
 	if (live != lbase) { r.violation(c.sig("example_loop", "leak"), d() + fmt("; %zu allocation(s) are still live after mpt_path_fini", live - lbase)); return -1; }
 	// the example ignores a failing mpt_path_del (section end at top level): only sequences without such a step are judged
 	if (type == 0 && !kind.empty() && kind != "sectend-without-open") { r.violation(c.sig("example_loop", ("nesting:" + kind).c_str()), d() + "; successful parse with an ill-nested event sequence: " + why); return -1; }
+	if (type == 0 && kind.empty() && !stack.empty() && must_close(c.fi)) { r.violation(c.sig("example_loop", "nesting:open-at-end"), d() + fmt("; success is reported although %zu section(s) are still open at end of input", stack.size())); return -1; }
 	++g_cn[type == 0 ? EX_OK : EX_FAIL];
 	if (type == 0 && cfg_result < 0) ++g_cn[EX_OK_CFG_FAIL];
 	return 0;
@@ -487,7 +496,7 @@ static void run_case(Run &r, const Case &c, bool fail_first = false)
 static int maxlen(Tier t, int fi, int ni)
 {
 	if (t == Quick) return 4;
-	if (ni == 0) return 5;                                      // all 11 formats, unrestricted names
+	if (ni == 0) return 5;                                      // all formats, unrestricted names
 	if (ni == 1 && (fi == 0 || fi == 1 || fi == 3)) return 5;   // strict names: default, online (option end), config (separated)
 	return 4;
 }
